@@ -72,7 +72,7 @@ TQueue ==
 TAwait ==
   /\ Ev("await") /\ UNCHANGED <<cap, swallowed>>
   /\ IF owed THEN
-          /\ diag' = Name(T.got, "owed-notification-never-arrived") \cup
+          /\ diag' = Name(T.got, "owed-notification-never-arrived") \cup Name(T.len0 = 0, "harness-await-on-nonempty-inbox") \cup
                      Name(~T.got \/ T.t1 >= owedLo, "notified-too-early")
           /\ owed' = FALSE /\ lqLo' = owedLo /\ lqHi' = T.t1 /\ UNCHANGED owedLo
      ELSE /\ diag' = Name(~T.got \/ swallowed, "spurious-notification")
